@@ -25,7 +25,8 @@ Entries ==
 VARIABLE w
 Init == w = <<>>
 Push(e) == Len(w) < MaxLen /\ w' = Append(w, e)
-Next == \E e \in Entries : Push(e)
+Repeat == Len(w) = MaxLen /\ MaxLen >= 2 /\ w[1][1] # w[Len(w)][1] /\ w' = Append(w, w[1])      \* non-adjacent repetition of the first entry
+Next == (\E e \in Entries : Push(e)) \/ Repeat
 Spec == Init /\ [][Next]_w
 
 Item == Map(w)
@@ -45,7 +46,7 @@ DupOnlyFault == /\ \A i \in 1..Len(w) : LabelLike("CwtClaimName", TRUE, w[i][1])
 InvDup == DupOnlyFault => (~D.ok /\ D.err = "DuplicateMapKey")
 
 Expect ==
-  IF WFd THEN [accept |-> TRUE, val |-> <<Claims_ValueOf(Item)>>, err |-> "", pinerr |-> FALSE, errprop |-> "C12", judge |-> TRUE]
+  IF WFd THEN [accept |-> TRUE, val |-> <<Claims_ValueOf(Item)>>, err |-> "", pinerr |-> FALSE, errprop |-> "C12", judge |-> TRUE, reenc |-> <<Enc(Claims_ToCbor(D.x).x)>>]
   ELSE [accept |-> FALSE, val |-> <<>>, err |-> D.err, pinerr |-> DupOnlyFault, errprop |-> "C12", judge |-> TRUE]
 Strat2 == LET S == <<"w1", "w2", "w4", "w8", "indef", "indef2">> IN S[(Len(Enc(Item)) % 6) + 1]
 Emit == PrintT(ToJson([kind |-> "decode", props |-> <<"C18">>, ty |-> "ClaimsSet", reg |-> "", item |-> Item,
